@@ -59,6 +59,20 @@ func H_clean() {
 		content = frames[2] + strings.Join(staleFrames, "") + frames[1] + frames[0]
 	}
 	writeFile(path, content)
+	// a second addressed multi-entry file: TestA makes one call there; it may hold an
+	// entry with an id that is live in f.snap but stale here
+	gpath := dir + "/g.snap"
+	gStale := vxrt.Bool("second-file-stale-entry")
+	gcontent := frame("TestA - 1", "g1")
+	if gStale {
+		gcontent += frame("TestA - 2", "gstale")
+	}
+	writeFile(gpath, gcontent)
+	// a stale standalone snapshot with a custom extension
+	hasStaleExt := vxrt.Bool("stale-standalone-with-ext")
+	if hasStaleExt {
+		writeFile(dir+"/TestOld_1.snap.json", "{}")
+	}
 	hasStaleStandalone := vxrt.Bool("stale-standalone")
 	if hasStaleStandalone {
 		writeFile(dir+"/TestS_2.snap", "old")
@@ -74,11 +88,13 @@ func H_clean() {
 
 	c := WithConfig(Dir(dir), Filename("f"), Update(false))
 	cs := WithConfig(Dir(dir), Update(false))
+	cg := WithConfig(Dir(dir), Filename("g"), Update(false))
 	for r := 0; r < count; r++ {
 		ta, tb, ts := newT("TestA"), newT("TestB"), newT("TestS")
 		c.MatchSnapshot(ta, bA1)
 		c.MatchSnapshot(ta, bA2)
 		c.MatchSnapshot(tb, bB1)
+		cg.MatchSnapshot(ta, "g1")
 		cs.MatchStandaloneSnapshot(ts, "sv")
 		ta.end()
 		tb.end()
@@ -105,8 +121,18 @@ func H_clean() {
 			vxrt.Assert(vxrt.Eq(got, e.body), "C07:addressed-entry-value-unchanged")
 		}
 		vxrt.Assert(readFile(dir+"/TestS_1.snap") == "sv", "C07:addressed-standalone-untouched")
-		for _, id := range []string{"TestA - 1\n", "TestA - 2\n", "TestB - 1\n", "TestS_1.snap\n", "/f.snap\n"} {
-			vxrt.Assert(!strings.Contains(out, bulletSymbol+id) && !strings.Contains(out, id[:len(id)-1]+"\n") || !strings.Contains(out, bulletSymbol+dir+id) && !strings.Contains(out, bulletSymbol+id), "C07:addressed-item-not-listed")
+		gg, _, gerr := getPrevSnapshot("[TestA - 1]", gpath)
+		vxrt.Assert(gerr == nil && gg == "g1", "C07:addressed-entry-in-second-file-unchanged")
+		for _, id := range []string{"TestA - 1", "TestA - 2", "TestB - 1"} {
+			if id == "TestA - 2" && gStale {
+				// the same id is stale in g.snap and is rightly listed for that file
+				// (the summary does not name the file of an entry)
+				continue
+			}
+			vxrt.Assert(!strings.Contains(out, bulletSymbol+id+"\n"), "C07:addressed-entry-not-listed")
+		}
+		for _, f := range []string{"/TestS_1.snap\n", "/f.snap\n", "/g.snap\n"} {
+			vxrt.Assert(!strings.Contains(out, dir+f), "C07:addressed-file-not-listed")
 		}
 	case 9: // C09: every stale item reported; removed only in clean mode; nothing else touched
 		if nStaleEntries > 0 {
@@ -121,6 +147,17 @@ func H_clean() {
 			} else {
 				vxrt.Assert(err == nil, "C09:stale-entry-kept-outside-clean-mode")
 			}
+		}
+		if gStale {
+			vxrt.Reach("second-file-stale")
+			_, _, gerr := getPrevSnapshot("[TestA - 2]", gpath)
+			vxrt.Assert((gerr != nil) == cleanMode, "C09:stale-entry-of-second-file-removed-iff-clean-mode")
+			f2, _, ferr := getPrevSnapshot("[TestA - 2]", path)
+			vxrt.Assert(ferr == nil && vxrt.Eq(f2, bA2), "C09:live-entry-with-the-same-id-in-other-file-kept")
+		}
+		if hasStaleExt {
+			vxrt.Assert(strings.Contains(out, bulletSymbol+dir+"/TestOld_1.snap.json\n"), "C09:stale-file-with-custom-extension-reported")
+			vxrt.Assert((readFile(dir+"/TestOld_1.snap.json") == "<missing>") == cleanMode, "C09:stale-file-with-custom-extension-removed-iff-clean-mode")
 		}
 		if hasStaleStandalone {
 			vxrt.Assert(strings.Contains(out, bulletSymbol+dir+"/TestS_2.snap\n"), "C09:stale-standalone-reported")
